@@ -21,7 +21,7 @@ PROPERTY = 'C10'
 _STATE = {}
 
 # methods a check may invoke on a *re-iterable collection*
-ALLOWED = {'__len__', '__iter__', '__next__', '__getitem__', '__bool__', 'keys', 'values', 'items', 'keys.__iter__', 'values.__iter__', 'items.__iter__',
+ALLOWED = {'__len__', '__iter__', '__next__', '__getitem__', 'keys', 'values', 'items', 'keys.__iter__', 'values.__iter__', 'items.__iter__',
            'keys.__len__', 'values.__len__', 'items.__len__', '__eq__', '__hash__', '__contains__'}
 ON_REJECT = {'__repr__'}
 
@@ -148,8 +148,17 @@ def _work(idx):
             seen.append(a)
             return a
         f.__annotations__ = {'a': h, 'return': h}
+        from beartype import BeartypeConf, BeartypeStrategy
+        conf_on = BeartypeConf(strategy=BeartypeStrategy.On)
+        conf_def = BeartypeConf()
+
+        def f2(a):
+            seen.append(a)
+            return a
+        f2.__annotations__ = dict(f.__annotations__)
         try:
             g = beartype(f)
+            g_on = beartype(conf=conf_on)(f2)
         except Exception as e:
             out['violations'].append((f'decorate:{hname}:{type(e).__name__}', f'@beartype raised {type(e).__name__}: {str(e)[:160]}', {'hint': hname}))
             return out
@@ -162,10 +171,11 @@ def _work(idx):
                 continue
             for cname, items in CONTENTS.items():
                 for r in _STATE['res']:
-                    for entry in ('is_bearable', 'die_if_unbearable', 'decorated') + (('die_if_unbearable+bad-sibling', 'decorated+bad-sibling') if wrappable(hname) else ()):
+                    for entry in ('is_bearable', 'die_if_unbearable', 'decorated') + (('die_if_unbearable+bad-sibling', 'decorated+bad-sibling', 'die_if_unbearable+On+bad-sibling', 'decorated+On+bad-sibling') if wrappable(hname) else ()) + ('is_bearable+On', 'die_if_unbearable+On'):
                         subj = mk(list(items))
                         x = wrap(hname, subj, entry.endswith('+bad-sibling'))
                         entry_kind = entry
+                        conf = conf_on if '+On' in entry else conf_def     # every item of a collection may be read under O(n); iterators still never
                         entry = entry.split('+')[0]
                         before = snapshot(subj, kind)
                         n_before = len(subj) if kind == 'mapping' and isinstance(subj, dict) else None
@@ -175,11 +185,11 @@ def _work(idx):
                         rejected = False
                         try:
                             if entry == 'is_bearable':
-                                rejected = not is_bearable(x, h)
+                                rejected = not is_bearable(x, h, conf=conf)
                             elif entry == 'die_if_unbearable':
-                                die_if_unbearable(x, h)
+                                die_if_unbearable(x, h, conf=conf)
                             else:
-                                res = g(x)
+                                res = (g_on if conf is conf_on else g)(x)
                         except BeartypeCallHintViolation:
                             rejected = True
                         except Exception as e:
